@@ -8,9 +8,9 @@ open Board Chan Spec C06
 
 /-- `Spec.C18`, unfolded: the last event is `poweroff`, the monitor accepts the events before it
     and the outcome and the bootlogs fit its final state -/
-theorem C18_unfold (c : Board.Case) (o : Obs) (h : Spec.C18 c o = true) :
+theorem monitorOk_unfold (c : Board.Case) (o : Obs) (h : Spec.monitorOk c o = true) :
     ∃ pre t m, o.evs = pre ++ [.poff t] ∧ steps c {} pre = some m ∧ accept c m t o.res = true ∧ logsOk m o = true := by
-  unfold Spec.C18 at h
+  unfold Spec.monitorOk at h
   cases hl : o.evs.getLast? with
   | none => rw [hl] at h; simp at h
   | some e =>
@@ -27,6 +27,18 @@ theorem C18_unfold (c : Board.Case) (o : Obs) (h : Spec.C18 c o = true) :
         simp only [Bool.and_eq_true] at h
         exact ⟨ys, t, m, hys, hs, h.1, h.2⟩
     | _ => simp at h
+
+theorem C18_unfold (c : Board.Case) (o : Obs) (h : Spec.C18 c o = true) :
+    (∃ pre t m, o.evs = pre ++ [.poff t] ∧ steps c {} pre = some m ∧ accept c m t o.res = true ∧ logsOk m o = true)
+    ∧ (coopB c = true → o.res = none) := by
+  unfold Spec.C18 at h
+  simp only [Bool.and_eq_true, Bool.or_eq_true, Bool.not_eq_true'] at h
+  refine ⟨monitorOk_unfold c o h.1, fun hc => ?_⟩
+  rcases h.2 with h2 | h2
+  · rw [hc] at h2; simp at h2
+  · cases hr : o.res with
+    | none => rfl
+    | some e => rw [hr] at h2; simp at h2
 
 /-! ### the stage clock: `m.start` is the time of the event that began the stage -/
 
@@ -303,7 +315,7 @@ theorem model_verdict (c : Board.Case) (h : WfCase c) :
       ∧ accept c m t (Board.run c).res = true
       ∧ (Board.run c).ubLog = (if m.ubSet then some m.ulog else none)
       ∧ (Board.run c).lnxLog = (if m.lnxSet then some m.llog else none) := by
-  obtain ⟨pre, t, m, h1, h2, h3, h4⟩ := C18_unfold c _ (run_spec c h)
+  obtain ⟨pre, t, m, h1, h2, h3, h4⟩ := monitorOk_unfold c _ (run_monitor c h)
   obtain ⟨h5, h6⟩ := bootlogs m _ h4
   exact ⟨pre, t, m, h1, h2, accepted_start c pre m h2, h3, h5, h6⟩
 
